@@ -131,7 +131,11 @@ func evaluate(p *an.Prog, prop string, sweeps bool, known []knownFinding) (obs [
 			continue
 		}
 		nrules++
+		t0 := time.Now()
 		o, f := an.RunRule(p, r)
+		if os.Getenv("VERIF_TIMING") != "" {
+			fmt.Fprintf(os.Stderr, "timing %s %.2fs\n", r.ID, time.Since(t0).Seconds())
+		}
 		obs = append(obs, o...)
 		for _, x := range f {
 			fset[x] = true
